@@ -15,7 +15,6 @@ import (
 	"fmt"
 	"go/types"
 	"sort"
-	"strings"
 
 	"golang.org/x/tools/go/ssa"
 )
